@@ -27,7 +27,7 @@ Example c13_bloom_example :
   abs_wf a /\ variant_ok v a /\
   bf_deserialize (enc_spec v a) = Ok (mkBloom 9001 5 8 [255]).
 Proof.
-  split; [|split; [intros H; discriminate|vm_compute; reflexivity]].
-  constructor; vm_compute; try (split; discriminate); try reflexivity.
+  intros a v. split; [|split; [intros H; discriminate|vm_compute; reflexivity]].
+  constructor; cbn [a a_nh a_seed a_nw a_words a_count length]; try lia; try reflexivity.
   repeat constructor.
 Qed.
